@@ -32,6 +32,8 @@ func (e *Evidence) GenerateMerkleRoot(height int64, maxRelays int64, storage *Ca
 		ev.Proofs = ev.Proofs[:maxRelays]
 		ev.NumOfProofs = maxRelays
 	}
+	// the sealed evidence may hold proofs stored after the receiver was read: the claim must count what the root commits to
+	*e = ev
 	// generate the root object
 	root, _ = GenerateRoot(height, ev.Proofs)
 	return
